@@ -103,12 +103,12 @@ def check(ctx):
     ctx.samples.append({"calls": [script[1], script[len(script) // 2], script[-1]]})
     t = ctx.drive(drv, script, "numconv")
     bad = ctx.judge("NumTextTrace", [t], shards=16)
+    for b in bad: b["driver"] = "drv_numconv"
     # the second build configuration (size-optimised, plain char unsigned) on part of the executions
     ta = ctx.drive(build(ctx, alt=True), core.subset_executions(script, ctx.seed, 1.0 if ctx.thorough else 0.34), "numconv_alt")
     bada = ctx.judge("NumTextTrace", [ta], shards=16)
     for b in bada: b["driver"] = "drv_numconv@alt"
     bad += bada
-    for b in bad: b["driver"] = "drv_numconv"
     ctx.report(bad)
     ctx.assumptions += [
         "letter case as documented per API: igris_i*toa and the itoa family lower case, igris_u*toa and the debug printers upper case; parsers accept either",
